@@ -170,6 +170,17 @@ def gen(rng, tier, int_keys=None):
 def strata(tier):
     for j in range(150 if tier == "quick" else 600):
         yield gen(G.rng_for("C20-strata", j), tier, int_keys=(j % 3 == 0))
+    # big trees (> 60 nodes)
+    for j in range(3 if tier == "quick" else 10):
+        rng = G.rng_for("C20-big", j)
+        keys = [f"key{i:02d}" for i in range(65 + j)]
+        cond, always = combine(rng, [L("equal_to", {"$type": "dict"}, pre="dtype"), L("allowed_keys", *keys), L("required_keys", *keys[::3])])
+        rules = [{"path": PC.mkpath([]), "cond": cond, "cast": None, "doc": DOCS[3], "_always": always}]
+        for i, k in enumerate(keys):
+            rules.append({"path": PC.mkpath([{"p": "prim", "v": k}]), "cond": L("equal_to", {"$type": rng.choice(TYPES)}, pre="dtype"),
+                          "cast": None, "doc": rng.choice(DOCS), "_always": True})
+        rng.shuffle(rules)
+        yield {"rules": rules, "nested": j % 2 == 0, "from_path": None, "anchor": None}
     # fixed regression shapes
     root = {"path": PC.mkpath([]), "cond": {"c": "and", "a": L("equal_to", {"$type": "dict"}, pre="dtype"),
                                             "b": {"c": "and", "a": L("required_keys", "a"), "b": L("allowed_keys", "a", "b")}},
